@@ -150,6 +150,9 @@ func checkC33(r *Run) {
 	r.Explain = "(R1+) the executed block's body is bound to the signed header: verifyBlockHeader (on the execution path for every non-genesis block) requires BodyHash and PrevHash to match, the signature is checked over the header hash; C33: (R1) GiveBlocksMessage.process executes blocks only through the signature-checking Visor path, skips blocks at or below the head, and stops at the first failure; (R2) after progress it requests the next blocks; announce/get handlers request blocks above the head; (R3) gap-freeness is C04-R3 (seq == head+1)."
 	r.NotDec = "convergence for concrete delivery orders (a history property)"
 	ruleNoCrossedConfig(r, "C33-R0")
+	ruleSignedHashAcceptors(r, "C33-R1")
+	// a genuine publisher block is not refused: the hard-constraint verifiers reject only for the documented reasons
+	ruleHoursSpending(r, "C33-R4")
 	fn := r.fn("C33-R1", "daemon.GiveBlocksMessage.process")
 	if fn == nil {
 		return
